@@ -541,3 +541,26 @@ func oracle(run *vk.Run, rng *rand.Rand) {
 	run.Add("oracle_records", len(recs))
 	run.Add("oracle_disagreements", len(bad))
 }
+
+// HostileStrings returns TLC-generated key strings (substitutions, variants, plugin names) for C14.
+func HostileStrings(run *vk.Run) []string {
+	sub := []int{'q', 'l', '1', 'b', 'A', 'K', ' ', 127, 0, 16, 10, 8490, 383, 304, 65345, 0x80, 0xff}
+	var out []string
+	for _, m := range []struct {
+		mode string
+		cfg  string
+	}{{"subst", genCfg("subst", run.Seed, sub, nil, 0, "Emit")}, {"variants", genCfg("variants", run.Seed, nil, nil, 0, "Emit")},
+		{"plugin", genCfg("plugin", run.Seed, nil, []int{'a', 'Z', '-', '.', '/', '\\', '!'}, 2, "Emit")}} {
+		res := run.TLC("keystrings-"+m.mode, vk.TLCOpts{Module: "Bech32Gen", Config: m.cfg, Workers: 16})
+		if res.Violated != "" || !res.OK {
+			vk.Infra("Bech32Gen: %s\n%s", res.Violated, res.Output)
+		}
+		for _, l := range res.PrintsWithPrefix("CASE ") {
+			var c gcase
+			if json.Unmarshal([]byte(l), &c) == nil {
+				out = append(out, cpString(c.Input))
+			}
+		}
+	}
+	return out
+}
